@@ -28,7 +28,8 @@ PROPS["C14"] = {
             "(porcupine).  Non-trivial = the ring grew while head != 0, or a PopN spanned the wrap-around "
             "(sequential legs); an overlap of operations of two goroutines was observed (concurrent leg).  "
             "Distinct = distinct canonical JSON of the case.",
-    "assumptions": ["PopN is only called with n >= 0", "initial capacity >= 1",
+    "assumptions": ["PopN is only called with n >= 0", "initial capacity >= 1  "
+            "Round 3 addition (lenb leg): producers, consumers using generated PopN sizes (up to 2^40) and observer goroutines reading Len(): 0 <= Len() <= pushes started - elements popped by completed pops, and >= pushes completed - the most started pops can remove.",
                     "the concurrent leg samples interleavings produced by the Go runtime on 16 cores; it does not own the schedule"],
     "technique": "model-based property testing (rapid) against a slice FIFO model; bounded exhaustive enumeration; linearizability checking of generated concurrent histories (porcupine); native fuzzing",
     "level_text": "Generated-input search: every explored op sequence agrees with a reference FIFO model after every step; short sequences are enumerated completely; concurrent histories from real goroutines are checked for linearizability. No proof; interleavings are sampled, not owned.",
@@ -96,7 +97,8 @@ PROPS["C06"] = {
             "window, during replay, in Started, in Initialized, in Started after a restart) x 5 kinds of content queued behind it x {0,2} children, "
             "plus generated histories; restarts <= budget, exactly one ActorMaxRestartsExceededEvent, actor and children stopped (children first) "
             "and unregistered, later sends dead-letter exactly once with target/message/sender, the id can be respawned, a bystander still answers, "
-            "the test process survives (a dead process is a violation; the journaled case is the replay).  Non-trivial = the budget was exhausted.",
+            "the test process survives (a dead process is a violation; the journaled case is the replay).  Non-trivial = the budget was exhausted.  "
+            "Round 3 additions: panics with *actor.InternalError (restart that neither counts nor is published); for an actor that exhausts its budget inside Spawn the registry is judged when Spawn returns (all synchronous).",
     "technique": "complete fault enumeration over (budget, crash placement, queue content, children) + model-based property testing (rapid)",
     "level_text": "The small fault space is enumerated completely (400 cases); generated histories extend it. Outcome compared with an exact model.",
     "level_note": "trusts internal/life/sim.go; a panic inside a Stopped handler is not generated",
@@ -136,7 +138,8 @@ PROPS["C13"] = {
     "rule": "generated single-actor histories with middleware chains of length 0..4 on all delivery paths (spawn, user message, crash, restart, "
             "stop, poison, max-restarts); every receiver delivery must be bracketed by M0.in .. Mk-1.in and Mk-1.out .. M0.out (out or unwound by the panic), "
             "each exactly once, all layers seeing the same message and sender as the receiver, user messages with the sender given at the send.  "
-            "Non-trivial = chain length >= 2 and the history contains a crash.",
+            "Non-trivial = chain length >= 2 and the history contains a crash.  "
+            "Round 3 additions: the chain handed over in two WithMiddleware options at a generated split; the first option value is reused for a bystander actor with a middleware of its own, which must never see a delivery of the target; spawn contexts (none / live / cancelled); panics with *actor.InternalError (restart outside the budget).",
     "technique": "property-based testing (rapid) of generated histories with logging middleware; bracket-structure oracle over the totally ordered log",
     "level_text": "Generated-history search; the oracle is a structural invariant over the delivery log.",
     "level_note": "middleware functions are pure loggers; no claim about Context.Sender() during lifecycle messages",
@@ -193,7 +196,8 @@ PROPS["C09"] = {
             "without unsubscribing, lifecycle episodes that end in a dead letter.  Each monitor's log between barriers must hold exactly one DeadLetterEvent per undeliverable "
             "local send made while it was subscribed, with the Target, Message and Sender of the send, one EngineRemoteMissingEvent per foreign send, nothing for nil, in send order; "
             "no send may panic; after the history the logs must stop growing within 10 sentinel rounds (dead letters addressed to a departed subscriber are allowed but must die out).  "
-            "Non-trivial = at least one undeliverable send was observed by a subscribed monitor and the history has >=2 undeliverable target classes, or >=1 with a departed subscriber.",
+            "Non-trivial = at least one undeliverable send was observed by a subscribed monitor and the history has >=2 undeliverable target classes, or >=1 with a departed subscriber.  "
+            "Round 3 additions: sends through SendLocal, and Stop/Poison, of nil / never spawned / stopped targets (no panic, context done, one DeadLetterEvent carrying the stop request); a subscriber that leaves produces one ActorStoppedEvent at every remaining subscriber; a temp actor that sends to its own PID from inside its Stopped handler (one dead letter); a subscriber whose Stopped handler spawns and subscribes a successor under the same id (the successor receives everything from then on); a lost sentinel is decided by a later lifecycle event overtaking it (FIFO per broadcaster), not by a timeout.",
     "technique": "model-based property testing (rapid) of generated send/subscribe histories on the real engine; sentinel barriers; finiteness by quiescence rounds",
     "level_text": "Generated-history search against an exact expectation of the dead-letter log of every monitor; the feedback loop with departed subscribers is decided by quiescence rounds, not by time.",
     "level_note": "single driver goroutine; 'never blocks' shows up only as an inconclusive timeout",
@@ -207,7 +211,8 @@ PROPS["C12"] = {
             "bursts of 1..4 concurrent broadcasters with 1..8 numbered events each, lifecycle episodes (spawn, optional crash, optional duplicate spawn, poison, optional late send).  "
             "Each subscriber's log must equal the model's expectation: every event broadcast while it was subscribed exactly once, none otherwise, driver events in order, per-broadcaster "
             "order inside a burst, one started/restarted/duplicate/stopped/dead-letter event per provoked occurrence.  Non-trivial = the history unsubscribes a subscribed actor or "
-            "subscribes an already subscribed actor through a distinct PID object, and broadcasts something.",
+            "subscribes an already subscribed actor through a distinct PID object, and broadcasts something.  "
+            "Round 3 additions: a Stop of an actor that is gone (one DeadLetterEvent with the stop request); a duplicate SpawnChild (one ActorDuplicateIdEvent); successor subscribers spawned from a Stopped handler under the same id; self-sends from Stopped.",
     "technique": "model-based property testing (rapid) of subscribe/unsubscribe/broadcast histories on the real engine with logging subscriber actors and sentinel barriers",
     "level_text": "Generated-history search against an exact per-subscriber model; concurrent broadcasters are real goroutines (interleavings sampled, oracle only demands per-broadcaster order).",
     "level_note": "subscribe/unsubscribe are issued by the driver goroutine only (they are ordered with its broadcasts by the event stream inbox); ActorInitializedEvent is ignored",
@@ -225,7 +230,8 @@ PROPS["C18"] = {
     "rule": "generated sequences of 1..8 membership snapshots over a universe of 6 members with fixed kind sets plus the observing node (growing, shrinking, repeated, "
             "with duplicate entries, self at a generated position) sent to the real agent of a cluster with a stub provider; after each snapshot Members() must equal the "
             "snapshot by ID, the MemberJoinEvent/MemberLeaveEvent log since the previous snapshot must be exactly the set difference (each once, none for stayers), and HasKind(k) "
-            "must equal 'some member of the view advertises k' for 5 kinds.  Non-trivial = some snapshot both adds and removes members, or contains duplicate entries.",
+            "must equal 'some member of the view advertises k' for 5 kinds.  Non-trivial = some snapshot both adds and removes members, or contains duplicate entries.  "
+            "Round 3 addition: a member ID reported from another host in a later snapshot is a member that stayed (no events).",
     "technique": "model-based property testing (rapid) of snapshot histories against a set model; Members() request as barrier, sentinel event for the event log",
     "level_text": "Generated-history search against an exact set model of the view, the event log and the kind index.",
     "level_note": "trusts the set model; member attributes are fixed per ID",
@@ -238,7 +244,8 @@ PROPS["C20"] = {
     "rule": "generated histories of 1..12 ops (handshake from a peer, member list, unreachable report for the host of a member / of a non-member / repeated) against the real "
             "SelfManaged provider actor; unreachable reports take the public route (RemoteUnreachableEvent on the event stream -> event child -> provider).  After every op: "
             "the handshake reply is the complete list, the agent was told the new list whenever the op changes or re-reports it, a read-back handshake returns exactly the model set, "
-            "and no ActorRestartedEvent for the provider was published.  Non-trivial = history holds an unreachable report for a non-member, or re-adds a member that was removed.",
+            "and no ActorRestartedEvent for the provider was published.  Non-trivial = history holds an unreachable report for a non-member, or re-adds a member that was removed.  "
+            "Round 3 additions: a removed member may rejoin from another address (a late unreachable report for its old address then changes nothing); members lists with 33..75 further members (the handshake answer must be complete); the barrier after an unreachable report goes through the provider's event child, not through the provider's reaction.",
     "technique": "model-based property testing (rapid) of provider histories against a set model; a middleware on the provider actor gives exact 'message handled' barriers",
     "level_text": "Generated-history search against an exact set model of the provider's member list, with a recording stub agent.",
     "level_note": "the Started/Stopped handlers of the provider are replaced by a shim without mDNS and ping timer (shim/export/cluster.go); all other messages are handled by SelfManaged.Receive itself",
@@ -260,7 +267,8 @@ PROPS["C01"] = {
             "the blocked receiver exceeded the initial inbox size (the ring grew).  "
             "Schedule-owning legs (vsched, inbox level): 1..3 sender threads pushing 1..3 numbered messages each into a real Inbox of initial size 1..4 while Start races with them, under generated "
             "schedules and under every schedule with <= 2 (thorough 3) preemptions of 6 configurations: what Invoke receives contains nothing that was not pushed, nothing twice, and every sender's "
-            "messages in its own order (the ring grows and wraps under interleaved pushes and batch pops).",
+            "messages in its own order (the ring grows and wraps under interleaved pushes and batch pops).  "
+            "Round 3 additions: 1 case in 120 has a backlog of 4097..9000 messages (more than one batch); a duplicate Spawn under the target's id between the phases; a marker that is never handled is decided by relative progress (a bystander answers 300 requests issued after the marker while the idle target does not reach it), not by a timeout.",
     "technique": "property-based testing (rapid) of generated sender populations and inbox geometries on the real engine; per-sender sequence oracle; schedule-owning legs (generated + preemption-bounded schedules) at the inbox",
     "level_text": "Generated-input search; interleavings of the senders are sampled by the runtime in the engine leg and owned (generated / enumerated with a preemption bound) in the inbox legs; inbox geometry (size, backlog, wrap) is generated.",
     "level_note": "the ring buffer's own index arithmetic is covered exhaustively for short sequences by C14",
@@ -277,7 +285,8 @@ PROPS["C10"] = {
             "awaited stop / poison, and 'duplicates over a backlog' (the incumbent is blocked in Receive with 1..20 queued messages while 1..6 goroutines spawn its id).  After every op: "
             "the Producer of every id has run exactly as often as the model says (never for a duplicate; once per burst on a free id), Registry.GetPID and Context.GetPID are non-nil exactly "
             "for live ids, the number of ActorDuplicateIdEvents per id equals the number of losing spawns, and the incumbent handles every queued message, in order, in the same incarnation.  "
-            "Non-trivial = a burst of >=2 concurrent spawns on one free top-level id, or a spawn of an id whose previous actor was stopped.",
+            "Non-trivial = a burst of >=2 concurrent spawns on one free top-level id, or a spawn of an id whose previous actor was stopped.  "
+            "Round 3 additions: actors that die of max-restarts inside their own Spawn (panic in Initialized/Started, MaxRestarts 0): id free again, GetPID nil, respawn works; duplicates spawned while the incumbent is draining the messages queued behind a graceful Poison (it is still registered and keeps every queued message).",
     "technique": "model-based property testing (rapid) of spawn/stop histories with concurrent spawn bursts on the real engine; counters in the Producer, sentinel-bounded event counts",
     "level_text": "Generated-history search against an exact model of live ids, producer calls and duplicate events; the spawn race is sampled with up to 12 goroutines per burst.",
     "level_note": "child spawns are serialised by their parent actor, so only top-level bursts race; Stop is always awaited before the next op",
@@ -291,7 +300,8 @@ PROPS["C11"] = {
             "Result() returned) with a 5..40 ms timeout for the silent ones and 30 s for the answered ones.  A returned value must carry the request's own token; an error is accepted only "
             "if at least the timeout has elapsed since just before Result() was called; a silent responder must produce an error; after Result() the response PID is unregistered in both "
             "outcomes; a reply sent afterwards produces exactly one DeadLetterEvent for that response PID carrying that reply.  Non-trivial = >=2 concurrent requests with >=2 answered and "
-            ">=1 timed-out request.  Cases in which two requests drew the same random response id are not judged (counted).",
+            ">=1 timed-out request.  Cases in which two requests drew the same random response id are not judged (counted).  "
+            "Round 3 additions: 'held' requests (the reply arrives at once, Result() is called after more than the timeout: the reply must be returned); zero timeouts; the frequency of response-id collisions is judged (>= 3 colliding cases in one process against < 2.4e-7 per case for a 31-bit random id) - a statistical oracle.",
     "technique": "property-based testing (rapid) of concurrent request populations with token correlation; monotonic-clock lower bound for the timeout; dead-letter probe for late replies",
     "level_text": "Generated-input search with a timing-robust oracle: only a lower bound on elapsed time and token identity are asserted.",
     "level_note": "cross-talk through a collision of the 31-bit random response id cannot be reached without owning math/rand and is not claimed",
@@ -308,7 +318,8 @@ PROPS["C08"] = {
             "stamp and be unregistered, Stopped is handled exactly once per node, the stop context completes after all of it, nodes outside the subtree are untouched, Children() of every "
             "live node equals the model's live children at every quiescent point, Parent() names the spawner.  Non-trivial = the stopped subtree has depth >= 2 and a blocked descendant, "
             "a subtree that stopped on its own first, a child that died in its own Started, a death by max-restarts, or a third-party stop overlapping the shutdown.  "
-            "Every overlapping request's context must be done once the subtree is down, and at that moment its target has handled Stopped and is unregistered.",
+            "Every overlapping request's context must be done once the subtree is down, and at that moment its target has handled Stopped and is unregistered.  "
+            "Round 3 additions: nodes spawned WithContext(cancelled ctx); a duplicate SpawnChild under a live child's id (producer must not run, Children() unchanged); Stopped handlers that yield 0..200 times; for a target that is crashed to death the end of the shutdown is its ActorStoppedEvent.",
     "technique": "property-based testing (rapid) of generated supervision trees and overlapping stop requests on the real engine; global stop stamps + in-handler registry probes",
     "level_text": "Generated-configuration search with an ordering invariant over the Stopped stamps of the whole tree.",
     "level_note": "the interleaving of overlapping stop requests with the clean-up of the tree is sampled by the Go runtime (real goroutines), not owned; findings F7, F17, F18 (fixed) were found and are guarded by this leg",
@@ -390,7 +401,8 @@ PROPS["C19"] = {
             "membership is driven by snapshots.  Activate must return nil and spawn nothing for an id that is active or a kind nobody advertises; otherwise exactly one actor is spawned, on the "
             "member the select function returned, and that PID is returned.  After every op, on every joined node, GetActiveByID of all 15 ids and GetActiveByKind of all 5 kinds must equal the "
             "model (a joiner learns everything, deactivate removes everywhere and stops the actor, a leaver's activations disappear), and the number of producer calls must equal the model's.  "
-            "Non-trivial = the history has a remote activation and a leave or a deactivate.",
+            "Non-trivial = the history has a remote activation and a leave or a deactivate.  "
+            "Round 3 additions: 'swap' (a departure and a join in one snapshot), 'lagjoin' (the joiner's own view still lists only itself while the others have sent it their topology: re-activating an id it resolves returns nil), 'slowjoin' (some members hear of a join only after one of them has activated an actor: the joiner must still learn it).",
     "technique": "model-based property testing (rapid) of activation histories on an in-memory multi-node cluster against a map model; FIFO requests through the agents as barriers",
     "level_text": "Generated-history search against an exact model of the activation table on every node (quiescent histories).",
     "level_note": "notifications are pushed synchronously into the destination inbox, so arrival orders across links are not permuted; a node that left never rejoins",
